@@ -208,6 +208,10 @@ inductive Op
   | createIn (p c : El) (name ident : Option String)
       -- compound constructor `parent.create_X(name, properties={"EDIF.identifier": ident})`:
       -- construct, name, set the identifier, add; `c` is the fresh object
+  | clone (e : El) (off : Nat)
+      -- `e.clone()`: the copy of every element `x` of the subtree is the fresh object `x + off`; the copy
+      -- carries the same name / identifier / `.NS`, the root copy is an orphan, and (repaired behaviour)
+      -- the manager indexes the copies exactly as if they had been built through the public calls
   deriving Repr, Inhabited
 
 /-- explicit or implicit `.NS` assignment on an element without parent check (used by attach) -/
@@ -302,6 +306,7 @@ def stepCore (s : N) : Op → N × Res
     (s.dropNs e, .ok)
   | .setDefault p => ({ s with dflt := p }, .ok)
   | .createIn _ _ _ _ => (s, .ok)     -- handled by `step`
+  | .clone _ _ => (s, .ok)            -- handled by `step`
 
 /-- a sequence of calls that is abandoned at the first refusal; the half-built object is then garbage
     and the state is the one before the compound call -/
@@ -312,7 +317,26 @@ def tryAll (s0 : N) : N → List Op → N × Res
     | (s1, .ok) => tryAll s0 s1 ops
     | (_, r) => (s0, r)
 
+def shEl (off : Nat) (e : El) : El := ⟨e.kind, e.id + off⟩
+
+/-- the public calls that build the copy of ONE element (detached): construct, same policy, same keys -/
+def N.copyOps (s : N) (off : Nat) (x : El) : List Op :=
+  [.create (shEl off x)] ++
+  (match (s.info x).ns with
+    | some p => [.setNs (shEl off x) p]
+    | none => [.delNs (shEl off x)]) ++
+  (match (s.info x).name with | some v => [.setKey (shEl off x) .name v] | none => []) ++
+  (match (s.info x).ident with | some v => [.setKey (shEl off x) .ident v] | none => [])
+
+/-- the public calls that build the copy of the subtree of `e` (fixed depth), children in order -/
+def N.cloneOps (s : N) (off : Nat) (e : El) : List Op :=
+  s.copyOps off e ++ (s.kids e).flatMap (fun k =>
+    s.copyOps off k ++ [.attach (shEl off e) (shEl off k)] ++ (s.kids k).flatMap (fun k2 =>
+      s.copyOps off k2 ++ [.attach (shEl off k) (shEl off k2)] ++ (s.kids k2).flatMap (fun k3 =>
+        s.copyOps off k3 ++ [.attach (shEl off k2) (shEl off k3)])))
+
 def step (s : N) : Op → N × Res
+  | .clone e off => tryAll s s (s.cloneOps off e)
   | .createIn p c name ident =>
     tryAll s s ([.create c] ++ (match name with | some v => [.setKey c .name v] | none => []) ++
                 (match ident with | some v => [.setKey c .ident v] | none => []) ++ [.attach p c])
